@@ -34,6 +34,8 @@ SUBJ = {
  "F39": "the source excerpt of the console reporter depended on the order",
  "F47": "parse_int() silently saturated floats",
  "F46": "`test --dir` ran a test file against the wrong rules file",
+ "F43": "an empty plain YAML scalar was loaded as the empty string",
+ "F44": "a map with the same key twice was loaded with inconsistent contents",
  "F31": "`test` listed the rules of a test case in a different order",
 }
 log = subprocess.run(["git", "-C", "/repo", "log", "--format=%h %s"], capture_output=True, text=True).stdout.splitlines()
